@@ -16,7 +16,7 @@ grep '^fixed:' known-findings.txt | while read -r _ prop commit rest; do
   # harness build (no verdict): findings/*/revert_<commit>.diff then takes back the behaviour only
   R=$(ls findings/*/revert_$commit.diff 2>/dev/null | head -1)
   if [ -n "$R" ]; then
-    git -C $W apply $R || { echo "FIXED $p $commit: $R does not apply"; git -C /repo worktree remove --force $W; continue; }
+    git -C $W apply /verif/$R || { echo "FIXED $p $commit: $R does not apply"; git -C /repo worktree remove --force $W; continue; }
   elif ! git -C $W revert --no-commit $commit >/dev/null 2>&1; then
     git -C $W revert --abort >/dev/null 2>&1; git -C $W checkout -q -- . ; echo "FIXED $p $commit: cannot be reverted cleanly on the current tree (later fixes touch the same lines) - skipped"
     git -C /repo worktree remove --force $W; continue
